@@ -258,17 +258,52 @@ def h_convert_cli(nr, nc):
         fail('convert:tsv-read-raised', repr(e)[:160])
         return
     proc = pick(['taxonomy', 'sc_separated'], 'process-obs-metadata')
-    _, e = call(lambda: M._convert(t2, 'out.biom', to_json=True, process_obs_metadata=proc))
-    if e is not None or not captured:
-        fail('convert:from-tsv-raised', repr(e)[:160])
-        return
-    res = captured[0][0]
+    out_fmt = pick(['json', 'hdf5'], 'output-format')
+    if out_fmt == 'json':
+        _, e = call(lambda: M._convert(t2, 'out.biom', to_json=True, process_obs_metadata=proc))
+        if e is not None or not captured:
+            fail('convert:from-tsv-raised', repr(e)[:160])
+            return
+        res = captured[0][0]
+    else:
+        # down to the file: the real write_biom_table, with h5py.File(path, 'w') handing out an in-memory store
+        from checks.h5spec import new_store
+        CU = env.module('biom.cli.util')
+        store = new_store()
+        opened = []
+
+        class _File:
+            def __init__(self, fp, mode='r'):
+                opened.append((fp, mode))
+
+            def __enter__(self):
+                return store
+
+            def __exit__(self, *a_):
+                return False
+
+        class _H5:
+            File = _File
+        CU.h5py = _H5
+        M.write_biom_table = CU.write_biom_table
+        _, e = call(lambda: M._convert(t2, 'out.biom', to_hdf5=True, process_obs_metadata=proc))
+        if e is not None or opened != [('out.biom', 'w')]:
+            fail('convert:from-tsv-raised', f"{e!r} {opened}"[:160], output='hdf5')
+            return
+        res, e = call(lambda: b.Table.from_hdf5(store))
+        if e is not None:
+            fail('convert:written-hdf5-unreadable', repr(e)[:160])
+            return
     exp = a.copy()
     exp.obs_md = [{'taxonomy': list(x)} for x in taxa_sel]
+    if out_fmt == 'hdf5':
+        # BIOM 2.1 stores ragged lists padded with empty strings: empty levels are outside the HDF5 domain (C01: "lists of
+        # non-empty text"), the file holds the non-empty ones
+        exp.obs_md = [{'taxonomy': [lvl for lvl in x if lvl != '']} for x in taxa_sel]
     exp.samp_md = None
     got = observe(res)
     got.type = exp.type = None
-    same_table('convert:roundtrip', got, exp, process=proc)
+    same_table('convert:roundtrip', got, exp, process=proc, output=out_fmt)
 
 
 HARNESSES = {'roundtrip': h_roundtrip, 'parser_symbolic_ids': h_parser_symbolic_ids, 'convert_cli': h_convert_cli}
